@@ -14,6 +14,7 @@ from concurrent.futures import ThreadPoolExecutor
 from .. import core
 from ..drivers import c08_worker
 from . import pybind_common
+from ..gen import scopes
 
 
 def worker(payload):
@@ -97,6 +98,12 @@ def run(tier, replay=None):
                 for ms in rng.sample(mutseqs[1:8], 3):
                     texts.append({'id': tid, 'source': s, 'filename': '/nonexistent-verif-root/pkg/snip.py', 'cursors': 3, 'seed': rng.randrange(1 << 30), 'muts': ms})
                     tid += 1
+            for mi, src in enumerate(scopes.gen_modules(seed * 7 + 2, 600 if thorough else 60)):
+                texts.append({'id': tid, 'source': src, 'filename': '/nonexistent-verif-root/s%d.py' % mi, 'cursors': 8, 'seed': rng.randrange(1 << 30)})
+                tid += 1
+                texts.append({'id': tid, 'source': src, 'filename': '/nonexistent-verif-root/s%d.py' % mi, 'cursors': 2, 'seed': rng.randrange(1 << 30),
+                              'muts': rng.choice(mutseqs[1:])})
+                tid += 1
             # generated programs
             for c in pybind_common.gen_cases(seed, 400 if thorough else 48, mix={'c03': 0.2}, exec_limit=10):
                 texts.append({'id': tid, 'source': c['source'], 'filename': '/nonexistent-verif-root/p%d.py' % c['id'], 'cursors': 10, 'seed': rng.randrange(1 << 30)})
